@@ -5,6 +5,7 @@ import (
 	"go/parser"
 	"go/token"
 	"regexp"
+	"sort"
 	"strings"
 
 	"verifmc/canon"
@@ -19,7 +20,7 @@ func init() {
 		Level: "model_checking",
 		Rule: "universe = (a) field sweep: every construct of the catalogue K (one snippet per go/ast node type and populated field) used as a literal pattern and with one leaf replaced by an expression / identifier metavariable x the file containing the construct itself and each reflection-generated single-point deviation of it (every scalar, token, channel direction, meaningful position validity, every slice element dropped/duplicated/swapped, every optional child removed); " +
 			"(b) position sweep: representative expression/statement/declaration patterns x every slot of the context catalogue x {instance, near-misses}; (c) multiplicity and nesting: every combination of instance / near-miss / instance-in-instance / instance-in-filler over 2..3 expression holes, and every statement sequence (<=3) over instances, near-misses and instances nested in bare blocks, if/else, case clauses, loops and closures. " +
-			"(d) two-change patches in which the second change's instances lie in code the first one generated (empty lists, unwrapped arguments, emptied blocks); (b') patch files without final newline. Oracle: canonical output in the model's Allowed set (no non-instance rewritten; every mandatory site rewritten). non-trivial = the file contains an instance or the case is a near-miss of a pattern (mutant)",
+			"(g) for patterns with an elided condition and spelled-out init/post clauses x all sequences (<=2) of loops differing in a spelled-out clause (no model: the file must stay unchanged); (f) patterns qualified by an import-name metavariable x 4 import spellings x all sequences (<=3) of selections from that and other names; (d) two-change patches in which the second change's instances lie in code the first one generated (empty lists, unwrapped arguments, emptied blocks); (b') patch files without final newline. Oracle: canonical output in the model's Allowed set (no non-instance rewritten; every mandatory site rewritten). non-trivial = the file contains an instance or the case is a near-miss of a pattern (mutant)",
 		Assumptions: []string{"a generated pattern that patch.Parse rejects is not a case (counted under not_cases)"},
 		Bounds: func(tier string) map[string]any {
 			return map[string]any{"constructs": len(gen.Constructs()), "stmt_seq_len": 3}
@@ -30,13 +31,24 @@ func init() {
 		Run: func(env *core.Env, ci any) core.Outcome {
 			c := ci.(*MCase)
 			if c.Then != nil {
-				o := judgeSeqBoth(env, &SCase{Changes: []*model.Change{c.Change, c.Then}, File: c.File, Tag: c.Tag}, canon.Options{})
+				o := judgeSeqBoth(env, &SCase{Changes: []*model.Change{c.Change, c.Then}, File: c.File, Tag: c.Tag}, canon.Options{KeepParens: true})
 				if o.Violation != "" {
 					o.FindingKey = "C01:" + o.FindingKey + "/d-generated"
 				}
 				return o
 			}
-			v := judgeModelBoth(env, c, canon.Options{}, 1)
+			if c.NoInstance {
+				o := judgeNoInstance(env, c)
+				if o.Violation != "" {
+					o.FindingKey = "C01:" + o.FindingKey + "/" + strings.SplitN(c.Tag, "/", 2)[0]
+				}
+				return o
+			}
+			opts := canon.Options{KeepParens: true}
+			if strings.HasPrefix(c.Tag, "f-import-metavar/") {
+				opts.MaskImports = true // what happens to the matched import is C11's subject
+			}
+			v := judgeModelBoth(env, c, opts, 1)
 			o := v.Out
 			if strings.Contains(c.Tag, "/mutant:") {
 				o.Nontrivial = true
@@ -88,6 +100,49 @@ func parsesAsGo(src string) bool {
 var wordRe = func(w string) *regexp.Regexp { return regexp.MustCompile(`\b` + w + `\b`) }
 
 func c01Gen(tier string, emit func(any)) {
+	// (g) for statements whose pattern elides the condition but spells out the init and/or post clause: whatever
+	// the elision stands for, a loop that differs in a spelled-out clause, has a clause the pattern leaves empty,
+	// or is a range loop is no instance
+	type hdr struct{ init, post string }
+	loops := map[string]hdr{"for i := 0; i < n; i++ {": {"i := 0", "i++"}, "for ; i < n; i++ {": {"", "i++"}, "for i := 0; i < n; {": {"i := 0", ""}, "for i < n {": {"", ""}, "for {": {"", ""},
+		"for ; i > 0; i-- {": {"", "i--"}, "for j := 0; i < n; i++ {": {"j := 0", "i++"}, "for i := range xs {": {"range", "range"}, "for range xs {": {"range", "range"}}
+	for _, p := range []hdr{{"", "i++"}, {"i := 0", ""}, {"i := 0", "i++"}} {
+		for _, body := range [][]string{{"-  visit(i)", "+  inspect(i)"}, {"-  visit(i)", "+  inspect(i)", "   DOTS_2"}} {
+			lines := append([]string{" for " + p.init + "; DOTS_1; " + p.post + " {"}, body...)
+			ch := &model.Change{Kind: "stmts", Lines: model.L(append(lines, " }")...)}
+			var heads []string
+			for h, l := range loops {
+				if l != p {
+					heads = append(heads, h)
+				}
+			}
+			sort.Strings(heads)
+			for _, sq := range seqs(heads, 2) {
+				if len(sq) == 0 {
+					continue
+				}
+				var b strings.Builder
+				for _, h := range sq {
+					b.WriteString("\t" + h + "\n\t\tvisit(i)\n\t}\n")
+				}
+				emit(&MCase{Change: ch, File: "package p\n\nfunc _() {\n" + b.String() + "}\n", Tag: "g-for-clauses/" + p.init + ";" + p.post, NoInstance: true})
+			}
+		}
+	}
+	// (f) patterns qualified by an import-name metavariable: only selections from the name under which the file
+	// imports the path are instances (the name the metavariable is spelled like when the import is unnamed)
+	for _, body := range [][]string{{"-metrics.Incr(\"requests\")", "+metrics.Add(\"requests\", 1)"}, {"-metrics.Incr(x)", "+metrics.Add(x, 1)"}} {
+		ch := &model.Change{Kind: "expr", Meta: []model.MetaVar{{Name: "metrics", Kind: "identifier"}, {Name: "x", Kind: "expression"}},
+			Imports: []model.Import{{Tag: " ", Name: "metrics", Path: "x/metrics"}}, Lines: model.L(body...)}
+		for _, spec := range []string{`"x/metrics"`, `metrics "x/metrics"`, `m "x/metrics"`, `audit "x/metrics"`} {
+			for _, calls := range seqs([]string{`metrics.Incr("requests")`, `audit.Incr("requests")`, `m.Incr("requests")`, `metrics.Incr("other")`, `use(audit.Incr)`}, 3) {
+				if len(calls) == 0 {
+					continue
+				}
+				emit(&MCase{Change: ch, File: "package p\n\nimport " + spec + "\n\nfunc _() {\n\t" + strings.Join(calls, "\n\t") + "\n}\n", Tag: "f-import-metavar/" + spec})
+			}
+		}
+	}
 	exprCtx := map[string]gen.Ctx{}
 	for _, c := range gen.ExprContexts() {
 		exprCtx[c.ID] = c
